@@ -255,12 +255,13 @@ def gen_body(r):
 class Msg:
     """one generated message (what goes into the harness line) plus what the generator knows about it"""
     __slots__ = ("mode", "bo", "typ", "flags", "serial", "rs", "iface", "dest", "sender", "member", "path", "err",
-                 "body", "kinds")
+                 "body", "kinds", "stale")
 
     def line(self):
         return "m %s %s %d %d %d %s %s %s %s %s %s %s %s" % (
             self.mode, self.bo, self.typ, self.flags, self.serial, "-" if self.rs is None else str(self.rs),
-            ohx(self.iface), ohx(self.dest), ohx(self.sender), ohx(self.member), ohx(self.path), ohx(self.err), self.body)
+            ohx(self.iface), ohx(self.dest), ohx(self.sender), ohx(self.member), ohx(self.path), ohx(self.err), self.body) + (
+                " " + self.stale if getattr(self, "stale", None) else "")
 
     def names_valid(self):
         return ((self.iface is None or py_valid_interface(self.iface)) and
@@ -312,7 +313,15 @@ def gen_msg(r, idx, subset=None):
         if m.typ == 3:
             m.err = m.err or v["err"]
     m.body = gen_body(r)
-    m.mode = r.choice("db")
+    # the builders only make sense with a body that is pushed into the message they built
+    m.mode = "d" if m.body.startswith("raw:") else r.choice("db")
+    # stale dynheader.serial / signature / num_fds, as a decoded or forwarded header carries them: values that DISAGREE
+    # with the body; the marshaller must take signature and descriptor count from the body and the serial from its argument
+    m.stale = None
+    if r.random() < 0.5:
+        m.stale = "X:%s:%s:%s" % (r.choice(["-", "1", str(U32 - 1), str(r.randrange(1, U32))]),
+                                  ohx(r.choice([None, "", "u", "a{sv}", "(tt)", "yyyy"])),
+                                  r.choice(["-", "0", "1", "2", "7", str(U32 - 1)]))
     k = r.random()
     if k < 0.08:
         m.typ = 0
@@ -418,28 +427,57 @@ def py_flags_line():
 STD_CALLS = ["hello", "ping_bus", "list_names"]
 
 
+NUL_STRS = ["a\x00b", "\x00", "x\x00", "\x00tail", "type='signal'\x00"]
+
+
 def gen_std(r):
+    """a standard_messages / reply constructor call; about a quarter of the string arguments contain a NUL byte
+    (the only thing a Rust &str can hold that a D-Bus string cannot)"""
     serial = r.choice(SERIALS)
     k = r.randrange(12)
     v = gen_valid_names(r)
+    nul = lambda alts: r.choice(NUL_STRS) if r.random() < 0.25 else r.choice(alts)
     if k < 3:
         return "s %s %d" % (STD_CALLS[k], serial)
     if k == 3:
-        return "s ping %d %s" % (serial, hx(r.choice([v["dest"], "not a name", ":1.7"])))
+        return "s ping %d %s" % (serial, hx(nul([v["dest"], "not a name", ":1.7"])))
     if k == 4:
-        return "s request_name %d %s %d" % (serial, hx(r.choice([v["dest"], "", "x" * 300, "é"])), r.choice([0, 1, 2, 4, 7, U32 - 1]))
+        return "s request_name %d %s %d" % (serial, hx(nul([v["dest"], "", "x" * 300, "é"])), r.choice([0, 1, 2, 4, 7, U32 - 1]))
     if k in (5, 6, 7):
         return "s %s %d %s" % (["release_name", "add_match", "remove_match"][k - 5], serial,
-                               hx(r.choice([v["dest"], "type='signal',interface='a.b'", "", "y" * 1000])))
-    call = "%s %s %s %s %s" % (ohx(r.choice([None, v["iface"]])), ohx(r.choice([None, v["member"]])), ohx(r.choice([None, v["path"]])),
-                               ohx(r.choice([None, v["sender"], v["sender"], "bad sender"])), r.choice(["-", "1", "77", str(U32 - 1)]))
+                               hx(nul([v["dest"], "type='signal',interface='a.b'", "", "y" * 1000])))
+    onul = lambda alts: r.choice(NUL_STRS) if r.random() < 0.12 else r.choice(alts)
+    call = "%s %s %s %s %s" % (ohx(onul([None, v["iface"]])), ohx(onul([None, v["member"]])), ohx(onul([None, v["path"]])),
+                               ohx(onul([None, v["sender"], v["sender"], "bad sender"])), r.choice(["-", "1", "77", str(U32 - 1)]))
     if k == 8:
         return "s unknown_method %d %s" % (serial, call)
     if k == 9:
-        return "s invalid_args %d %s %s" % (serial, call, ohx(r.choice([None, "u", "a{sv}"])))
+        return "s invalid_args %d %s %s" % (serial, call, ohx(onul([None, "u", "a{sv}"])))
     if k == 10:
         return "s make_response %d %s" % (serial, call)
-    return "s make_error_response %d %s %s %s" % (serial, call, hx(r.choice([v["err"], "bad name"])), ohx(r.choice([None, "", "failed: €"])))
+    return "s make_error_response %d %s %s %s" % (serial, call, hx(onul([v["err"], "bad name"])), ohx(nul([None, "", "failed: €"])))
+
+
+def std_pushed(line):
+    """the string arguments a constructor pushes into the body with push_param(..).unwrap() (directly or inside a
+    formatted text), as byte strings; arguments that only go into header fields are not in this list"""
+    p = line.split(" ")
+    dec = lambda h: b"" if h in ("-", "e") else bytes.fromhex(h)
+    name = p[1]
+    if name in ("request_name", "release_name", "add_match", "remove_match"):
+        return [dec(p[3])]
+    if name == "unknown_method":
+        return [dec(p[3]), dec(p[4]), dec(p[5])]
+    if name == "invalid_args":
+        return [dec(p[3]), dec(p[4]), dec(p[5]), dec(p[8])]
+    if name == "make_error_response":
+        return [dec(p[9])]
+    return []
+
+
+def in_class_D24(line):
+    """known finding D24, class constructor-string-argument-contains-nul (Coq: KnownClass_D24)"""
+    return any(b"\x00" in x for x in std_pushed(line))
 
 
 def msg_from_M(mtxt, serial):
@@ -447,6 +485,7 @@ def msg_from_M(mtxt, serial):
     p = mtxt.split(",")
     m = Msg()
     m.kinds = ["std"]
+    m.stale = None
     m.mode = "d"
     m.bo = p[0]
     m.typ = int(p[1])
@@ -464,7 +503,7 @@ def msg_from_M(mtxt, serial):
 ANCHOR_FILES = ["rustbus/src/wire/marshal.rs", "rustbus/src/wire/unmarshal.rs", "rustbus/src/wire/util.rs",
                 "rustbus/src/wire/unmarshal_context.rs", "rustbus/src/wire/validate_raw.rs", "rustbus/src/params/validation.rs",
                 "rustbus/src/message_builder.rs", "rustbus/src/standard_messages.rs", "rustbus/src/connection/ll_conn.rs"]
-ANCHOR_HASH = "eea671ac3722460d"
+ANCHOR_HASH = "3f780f38ab073f88"
 
 
 def anchor_hash():
@@ -563,12 +602,7 @@ def sig_verdicts(drv, sigs):
 
 def run(ctx):
     thorough = ctx.tier == "thorough" or drifted(ctx)
-    ctx.rule = ("messages = 4 types (+Invalid) x subsets of the 7 optional header fields (thorough: all 128 subsets x both byte "
-                "orders x name lengths over every residue mod 8) x valid names of swept lengths / one invalid name from a list "
-                "of single-fault names x flags 0..255 (cycled, so every flag byte occurs in both byte orders) x boundary serials x "
-                "bodies (empty, pushed params incl. descriptors, hand-made bytes with valid/invalid signatures) built through "
-                "MessageBuilder or directly; the standard_messages / reply constructors on generated arguments; HeaderFlags "
-                "exhaustively (3 x 256). A case is non-trivial when it has at least two header fields; distinct = distinct harness lines")
+    ctx.rule = "(filled in at the end of the run with the numbers of this run)"
     ctx.trusted = ["Coq 8.16.1 kernel (coqc), vm_compute for the 3x256 flag sweep, no native_compute",
                    "extraction with ExtrOcamlBasic only, ocamlfind ocamlopt 4.13.1",
                    "ocaml/c05/driver.ml and harness/src/bin/c05.rs (I/O wrappers), the name validators and byte checks in checks/c05.py",
@@ -644,7 +678,7 @@ def run(ctx):
         idx += 1
         msgs.append(m)
         lines.append(m.line())
-    nstd = 3000 if thorough else 500
+    nstd = 3000 if thorough else 600
     for _ in range(nstd):
         lines.append(gen_std(r))
         msgs.append(None)
@@ -653,6 +687,10 @@ def run(ctx):
     dl = []
     parsed = []
     for l, o, m in zip(lines, impl, msgs):
+        if l.startswith("s ") and o.startswith("PANIC"):
+            parsed.append(None)
+            dl.append(l)                   # the constructor model says whether a panic is what the code must do here
+            continue
         if o.startswith("CRASH") or o.startswith("PANIC"):
             parsed.append(None)
             dl.append("?")
@@ -685,16 +723,41 @@ def run(ctx):
     sv = sig_verdicts(drv, sigs)
 
     for i, (l, o, mo, m, f) in enumerate(zip(lines, impl, model, msgs, parsed)):
+        if f is None and l.startswith("s ") and o.startswith("PANIC"):
+            # a constructor panicked: known finding D24 exactly when a pushed string argument contains NUL, the panic is
+            # the unwrap of StringContainsNullByte and the model (C05_standard_*: Panic on KnownClass_D24) says so too
+            ctx.case(l, nontrivial=True)
+            ctx.count("std:" + l.split(" ")[1])
+            ctx.disagreements_checked += 1
+            if in_class_D24(l) and "StringContainsNullByte" in o and mo == "M:PANIC":
+                ctx.count("known:D24")
+                if not ctx.known("D24", "a standard_messages / make_error_response constructor panics when a string argument "
+                                        "contains NUL (push_param(..).unwrap()); e.g. `%s`" % l[:120]):
+                    ctx.violation("a standard message constructor panicked on a string argument containing NUL", {"line": l, "impl": o[:400]})
+            else:
+                ctx.violation("a standard message constructor panicked%s" % (
+                    " (not the unwrap of StringContainsNullByte)" if in_class_D24(l) else " although no pushed string argument contains NUL"),
+                    {"line": l, "impl": o[:400], "model": mo[:200]})
+            continue
         if f is None:
             ctx.disagreements_checked += 1
             ctx.violation("marshalling or decoding a message panicked / crashed", {"line": l, "impl": o[:400]})
             continue
         if l.startswith("s "):
-            # constructor model vs implementation
-            if mo != "M:" + f["M"]:
+            # constructor model vs implementation: header fields AND the pushed body
+            if mo == "M:PANIC":
+                ctx.disagreements_checked += 1
+                if any(x and b"\x00" in x and x.hex() in f["B"].split(":")[0] for x in std_pushed(l)):
+                    ctx.violation("a standard message constructor returned a message whose body holds a string with a NUL byte",
+                                  {"line": l, "impl": o[:600]})
+                else:
+                    ctx.tie_broken("correspondence: the constructor model panics (a pushed string argument contains NUL), the constructor did not",
+                                   "line: %s\nimpl: %s" % (l, o[:400]))
+                continue
+            if mo != "M:%s B:%s" % (f["M"], f["B"]):
                 ctx.disagreements_checked += 1
                 ctx.tie_broken("correspondence: standard message constructor differs from its model",
-                               "line: %s\nimpl: M:%s\nmodel: %s" % (l, f["M"], mo))
+                               "line: %s\nimpl: M:%s B:%s\nmodel: %s" % (l, f["M"], f["B"], mo))
             mo = std_model[i]
             ctx.count("std:" + l.split(" ")[1])
         elif m is None:
@@ -731,6 +794,59 @@ def run(ctx):
         elif corr:
             ctx.tie_broken("correspondence: " + corr[0], "line: %s\nimpl: %s\nmodel: %s" % (l[:500], o[:1000], mo[:1000]))
     ctx.count("corpus", ncorpus)
+
+    # ---------------- a DECODED message (its dynheader carries serial, signature and num_fds of the old body) gets a
+    # different body and is marshalled again: the header must be the specification's header for the new body
+    r2 = ctx.sub_rng("remarshal")
+    gen_idx = [i for i, m in enumerate(msgs) if m is not None and lines[i].startswith("m ") and m.body is not None and parsed[i] is not None
+               and parsed[i]["H"] != "err" and m.required_present()]
+    pick = r2.sample(gen_idx, min(len(gen_idx), 1500 if thorough else 300))
+    rl, rmeta = [], []
+    for i in pick:
+        body2, serial2 = gen_body(r2), r2.choice(SERIALS)
+        rl.append("r " + lines[i][2:] + " %s %d" % (body2, serial2))
+        rmeta.append((msgs[i], serial2))
+    rout = run_sharded(exe, rl, "harness")
+    rml = []
+    for (m, serial2), o in zip(rmeta, rout):
+        f = fields_of(o) if o.startswith("R:ok") else None
+        rml.append("?" if f is None else "m d %s %d %d %d %s %s %s %s %s %s %s B:%s" % (
+            m.bo, m.typ, m.flags, serial2, "-" if m.rs is None else m.rs, ohx(m.iface), ohx(m.dest), ohx(m.sender),
+            ohx(m.member), ohx(m.path), ohx(m.err), f["B"]))
+    rmodel = run_sharded(drv, rml, "driver")
+    for l, o, ml, mo in zip(rl, rout, rml, rmodel):
+        ctx.case(l, nontrivial=True)
+        ctx.count("remarshal:" + o.split(" ")[0])
+        if not o.startswith("R:ok"):
+            ctx.disagreements_checked += 1
+            ctx.violation("a marshalled message with its required fields could not be decoded again (%s)" % o[:40], {"line": l, "impl": o[:300]})
+            continue
+        f, mf = fields_of(o), fields_of(mo)
+        if "S" not in mf:
+            ctx.tie_broken("extracted model driver failed on a re-marshal case", "line: %s\nmodel: %s" % (ml[:300], mo[:300]))
+        elif f["H"] != mf["H"]:
+            ctx.disagreements_checked += 1
+            if f["H"] != "err" and f["H"] != mf["S"]:
+                ctx.violation("re-marshalling a decoded message with a new body: the header differs from the specification's header "
+                              "(stale dynheader serial / signature / num_fds used?)", {"line": l, "impl": o[:1500], "model": mo[:1500]})
+            else:
+                ctx.tie_broken("correspondence: re-marshal verdict differs from the model", "line: %s\nimpl: %s\nmodel: %s" % (l[:400], o[:600], mo[:600]))
+
+    # ---------------- bytes captured from the peer end of a real connection (send_message_write_all) = header ++ body
+    widx = r2.sample([i for i, m in enumerate(msgs) if m is not None and lines[i].startswith("m ") and m.body is not None and parsed[i] is not None],
+                     1000 if thorough else 200)
+    wl = ["w " + lines[i][2:] for i in widx]
+    wout = run_sharded(exe, wl, "harness", per=40)
+    for i, l, o in zip(widx, wl, wout):
+        ctx.case(l, nontrivial=True)
+        f = parsed[i]
+        want = "W:err" if f["H"] == "err" else "W:" + f["H"] + ("" if f["B"].split(":")[0] == "-" else f["B"].split(":")[0])
+        got = " ".join(o.split(" ")[1:]) if o.startswith("B:") else o
+        ctx.count("wire:" + ("err" if want == "W:err" else "sent"))
+        if got != want:
+            ctx.disagreements_checked += 1
+            ctx.violation("the bytes a peer reads from the connection are not marshal's header followed by the body",
+                          {"line": l, "wire": got[:1500], "expected": want[:1500]})
     if ctx.tier == "thorough":
         picks = [i for i, l in enumerate(lines) if l.startswith("m ") and parsed[i] is not None and len(l) < 1500][:: max(1, len(lines) // 12)][:12]
         coq_crosscheck(ctx, [(dl[i], model[i]) for i in picks], [])
@@ -756,6 +872,20 @@ def run(ctx):
             elif not D.startswith("ok"):
                 ctx.violation("the library's decoder rejects a marshalled message (large path)", {"hfl": hfl, "decoded": D})
     ctx.exhaustive = False
+    hg = ctx.histogram
+    tot = lambda pre: sum(v for k, v in hg.items() if k.startswith(pre))
+    ctx.rule = (
+        "this run (%s sizes): %d generated messages = 4 types (+Invalid: %d) x subsets of the 7 optional header fields (thorough sizes: "
+        "all 128 subsets x 16) x valid names of swept lengths (%d messages sweep interface x member x path lengths over every residue mod 8 "
+        "in both byte orders) or one invalid name from a list of single-fault names (%d) x flags cycling through 0..255 in both byte orders x "
+        "boundary serials x bodies (empty, pushed params incl. descriptors, hand-made bytes with valid/invalid signatures), built through "
+        "MessageBuilder::with_byteorder (body pushed into the built message) or field by field, about half of them with stale "
+        "dynheader.serial/signature/num_fds that disagree with the body; %d standard_messages / reply constructor calls, about a quarter "
+        "of the pushed string arguments containing NUL (%d of them in the class of known finding D24); %d decoded messages given a "
+        "different body and marshalled again; %d messages sent through a real connection and read at the peer end; HeaderFlags "
+        "exhaustively (3 x 256); a 64 MiB object path. A case is non-trivial when it has at least two header fields; distinct = distinct "
+        "harness lines" % ("thorough" if thorough else "quick", sum(1 for l in lines if l.startswith("m ")), hg.get("type:0", 0), hg.get("kind:residues", 0),
+                           tot("kind:bad-"), tot("std:"), hg.get("known:D24", 0), tot("remarshal:"), tot("wire:")))
 
 
 def replay(ctx, body):
@@ -767,10 +897,37 @@ def replay(ctx, body):
         print("HeaderFlags table", "matches the bit semantics" if ok else "REPRODUCED: differs from the bit semantics: " + data.get("where", ""))
         return 0 if ok else 1
     l = data["line"]
+    if l.startswith("w "):
+        o = run_proc(exe, [l])[1]
+        om = run_proc(exe, ["m " + l[2:]])[1]
+        f = fields_of(om[0])
+        want = "W:err" if f["H"] == "err" else "W:" + f["H"] + ("" if f["B"].split(":")[0] == "-" else f["B"].split(":")[0])
+        got = " ".join(o[0].split(" ")[1:]) if o and o[0].startswith("B:") else (o or ["<crash>"])[0]
+        print("line:", l[:300], "\nwire    :", got[:600], "\nexpected:", want[:600])
+        print("REPRODUCED: the bytes on the wire are not header ++ body" if got != want else "not reproduced")
+        return 1 if got != want else 0
+    if l.startswith("r "):
+        o = run_proc(exe, [l])[1]
+        print("line:", l[:300], "\nimpl:", (o or ["<crash>"])[0][:800])
+        if not o or not o[0].startswith("R:ok"):
+            print("REPRODUCED: the marshalled message could not be decoded / re-marshalled")
+            return 1
+        f = fields_of(o[0])
+        p = l.split(" ")
+        ml = "m d %s B:%s" % (" ".join(p[2:5] + [p[-1]] + p[6:13]), f["B"])
+        mo = run_proc(drv, [ml])[1][0]
+        print("spec:", mo[:800])
+        mf = fields_of(mo)
+        bad = f["H"] != mf["H"] and f["H"] != mf.get("S")
+        print("REPRODUCED: the re-marshalled header differs from the specification's header" if bad else "not reproduced")
+        return 1 if bad else 0
     o = run_proc(exe, [l])[1]
     print("line:", l[:300])
     print("impl:", (o or ["<crash>"])[0][:1500])
     if not o or o[0].startswith("PANIC"):
+        if l.startswith("s ") and o and in_class_D24(l) and "StringContainsNullByte" in o[0]:
+            print("panic in the class of known finding D24 (a pushed string argument contains NUL)")
+            return 0
         print("REPRODUCED: crash/panic")
         return 1
     f = fields_of(o[0])
